@@ -254,6 +254,17 @@ Plan generate(Rng &rng, const Opts &opts, uint64_t)
             edge(long(rng.below(uint64_t(nVars))), long(rng.below(uint64_t(nVars))));
         }
     }
+    bool kills = !havePlant && !lattice && opts.f("kills", rng.chance(1, 3) ? 1 : 0) != 0;
+    if (kills) {
+        p.cfg["parsed"] = 0;
+        long nk = rng.range(1, 3);
+        for (long k = 0; k < nk; ++k) {
+            Step s;
+            s.op = "KILL";
+            s.a = {long(rng.below(uint64_t(nVars)))};
+            p.steps.push_back(s);
+        }
+    }
     Step an;
     an.op = "ANALYSE";
     p.steps.push_back(an);
@@ -291,6 +302,42 @@ Plan generate(Rng &rng, const Opts &opts, uint64_t)
     }
     qs.insert(qs.end(), rest.begin(), rest.end());
     p.steps.insert(p.steps.end(), qs.begin(), qs.end());
+    // a second phase: the model is edited after it has been analysed and queried, analysed again (by the same
+    // analyser or a new one) and queried again - whatever was memoised for the first analysis must not answer now
+    if (!havePlant && !lattice && p.cfg["parsed"] == 0 && opts.f("phases", rng.chance(1, 3) ? 1 : 0) != 0) {
+        p.cfg["phases"] = 1;
+        long nEd = rng.range(1, 5);
+        for (long k = 0; k < nEd; ++k) {
+            unsigned r = unsigned(rng.below(10));
+            Step s;
+            if (r < 4) {
+                long i = long(rng.below(uint64_t(nVars))), j = long(rng.below(uint64_t(nVars)));
+                if (i == j || comp[size_t(i)] == comp[size_t(j)]) {
+                    continue;
+                }
+                s.op = "EDGE";
+                s.a = {i, j, 0};
+            } else if (r < 7) {
+                s.op = "UNEDGE";
+                s.a = {long(rng.below(uint64_t(nVars))), long(rng.below(uint64_t(nVars)))};
+            } else if (r < 9) {
+                s.op = "CLEAREQ";
+                s.a = {long(rng.below(uint64_t(nVars)))};
+            } else {
+                s.op = "KILL";
+                s.a = {long(rng.below(uint64_t(nVars)))};
+            }
+            p.steps.push_back(s);
+        }
+        Step an2;
+        an2.op = "ANALYSE";
+        an2.a = {long(rng.below(2))};
+        p.steps.push_back(an2);
+        size_t n2 = std::min<size_t>(rest.size(), 200);
+        for (size_t k = 0; k < n2; ++k) {
+            p.steps.push_back(rest[rng.below(rest.size())]);
+        }
+    }
     return p;
 }
 
@@ -376,6 +423,7 @@ void execute(const Plan &plan, Ctx &ctx)
     AnalyserModelPtr am;
     std::vector<std::vector<bool>> truth;
     bool parsed = plan.c("parsed", 0) != 0;
+    bool phases = plan.c("phases", 0) != 0 && !parsed; // the model may be edited and analysed again after the first analysis
     int stepNo = -1;
     for (auto &s : plan.steps) {
         ++stepNo;
@@ -407,14 +455,15 @@ void execute(const Plan &plan, Ctx &ctx)
             varComp.push_back(ci);
             ctx.ev("VAR " + str(vars.size() - 1) + " comp " + str(ci) + (simalloc::active() ? " at " + hex64(uintptr_t(v.get())) : ""));
         } else if (s.op == "EDGE") {
-            if (am != nullptr || vars.size() < 2) {
+            if ((am != nullptr && !phases) || vars.size() < 2) {
                 continue;
             }
             ctx.begin(stepNo, "EDGE", "");
             size_t i = size_t(s.arg(0)) % vars.size(), j = size_t(s.arg(1)) % vars.size();
-            if (i == j || varComp[i] == varComp[j]) {
+            if (i == j || varComp[i] == varComp[j] || vars[i] == nullptr || vars[j] == nullptr) {
                 continue;
             }
+            am = nullptr; // the model changes: what was analysed before is history
             bool ok;
             long form = ((s.arg(2) % 3) + 3) % 3;
             if (form == 1) {
@@ -425,7 +474,7 @@ void execute(const Plan &plan, Ctx &ctx)
                     // ids through the setter, which also accepts pairs that are only indirectly equivalent
                     Variable::setEquivalenceMappingId(vars[i], vars[j], "map_" + str(stepNo));
                     for (size_t k = 0; k < vars.size(); ++k) {
-                        if (k != i && k != j && vars[i]->hasEquivalentVariable(vars[k], true) && ((k + size_t(stepNo)) % 3) == 0) {
+                        if (k != i && k != j && vars[k] != nullptr && vars[i]->hasEquivalentVariable(vars[k], true) && ((k + size_t(stepNo)) % 3) == 0) {
                             Variable::setEquivalenceMappingId(vars[i], vars[k], "imap_" + str(stepNo) + "_" + str(k));
                         }
                     }
@@ -435,21 +484,47 @@ void execute(const Plan &plan, Ctx &ctx)
             ctx.count(form == 0 ? "edges_plain" : "edges_with_ids");
             ctx.ev("EDGE " + str(i) + " " + str(j) + " -> " + str(ok));
         } else if (s.op == "UNEDGE") {
-            if (am != nullptr || vars.size() < 2) {
+            if ((am != nullptr && !phases) || vars.size() < 2) {
                 continue;
             }
             ctx.begin(stepNo, "UNEDGE", "");
             size_t i = size_t(s.arg(0)) % vars.size(), j = size_t(s.arg(1)) % vars.size();
+            if (vars[i] == nullptr || vars[j] == nullptr) {
+                continue;
+            }
+            am = nullptr;
             bool ok = Variable::removeEquivalence(vars[i], vars[j]);
             edges.erase(std::remove_if(edges.begin(), edges.end(), [&](const std::pair<long, long> &pr) { return (pr.first == long(i) && pr.second == long(j)) || (pr.first == long(j) && pr.second == long(i)); }), edges.end());
             ctx.count("fault_equivalence_cut_before_analysis");
             ctx.ev("UNEDGE " + str(i) + " " + str(j) + " -> " + str(ok));
+        } else if (s.op == "KILL") {
+            // the variable is taken out of its component and the last reference to it is dropped: every
+            // equivalence that went through it now ends at an expired weak reference
+            if ((am != nullptr && !phases) || vars.empty()) {
+                continue;
+            }
+            size_t i = size_t(s.arg(0)) % vars.size();
+            if (vars[i] == nullptr) {
+                continue;
+            }
+            ctx.begin(stepNo, "KILL", "");
+            am = nullptr;
+            comps[size_t(varComp[i])]->removeVariable(vars[i]);
+            std::weak_ptr<Variable> gone = vars[i];
+            vars[i] = nullptr;
+            edges.erase(std::remove_if(edges.begin(), edges.end(), [&](const std::pair<long, long> &pr) { return pr.first == long(i) || pr.second == long(i); }), edges.end());
+            ctx.count("fault_variable_destroyed");
+            ctx.ev("KILL " + str(i) + (gone.expired() ? " gone" : " still-alive"));
         } else if (s.op == "CLEAREQ") {
-            if (am != nullptr || vars.empty()) {
+            if ((am != nullptr && !phases) || vars.empty()) {
+                continue;
+            }
+            size_t i = size_t(s.arg(0)) % vars.size();
+            if (vars[i] == nullptr) {
                 continue;
             }
             ctx.begin(stepNo, "CLEAREQ", "");
-            size_t i = size_t(s.arg(0)) % vars.size();
+            am = nullptr;
             vars[i]->removeAllEquivalences();
             edges.erase(std::remove_if(edges.begin(), edges.end(), [&](const std::pair<long, long> &pr) { return pr.first == long(i) || pr.second == long(i); }), edges.end());
             ctx.count("fault_equivalence_cut_before_analysis");
@@ -459,18 +534,49 @@ void execute(const Plan &plan, Ctx &ctx)
                 continue;
             }
             ctx.begin(stepNo, "ANALYSE", "");
-            // ground truth from the model itself (equivalentVariable lists), cross-checked with the plan's edges
+            // ground truth from the model itself (equivalentVariable lists), cross-checked with the plan's edges;
+            // computed before the analysis (to write one equation per class) and again after it (a variable that only
+            // an earlier analysis result kept alive dies when the analyser lets go of that result)
+            std::set<size_t> classes;
+            std::vector<size_t> classOf(vars.size(), 0);
+            bool truthFailed = false;
+            auto computeTruth = [&]() {
+                classes.clear();
             std::map<const Variable *, size_t> index;
             for (size_t i = 0; i < vars.size(); ++i) {
-                index[vars[i].get()] = i;
+                if (vars[i] != nullptr) {
+                    index[vars[i].get()] = i;
+                }
             }
-            UnionFind uf(vars.size()), ufPlan(vars.size());
+            // (a variable that was taken out of the model but is kept alive by an earlier analysis result still
+            // links its neighbours: it gets a node of its own)
+            std::vector<VariablePtr> nodes;
             for (size_t i = 0; i < vars.size(); ++i) {
-                for (size_t k = 0; k < vars[i]->equivalentVariableCount(); ++k) {
-                    auto e = vars[i]->equivalentVariable(k);
-                    if (e == nullptr || index.count(e.get()) == 0) {
-                        ctx.violate("C18", "harness-unknown-equivalent", "", "equivalentVariable returned an object outside the model");
-                        return;
+                nodes.push_back(vars[i]);
+            }
+            bool outsideModel = false;
+            for (size_t n = 0; n < nodes.size() && nodes.size() < 4096; ++n) {
+                for (size_t k = 0; nodes[n] != nullptr && k < nodes[n]->equivalentVariableCount(); ++k) {
+                    auto e = nodes[n]->equivalentVariable(k);
+                    if (e != nullptr && index.count(e.get()) == 0) {
+                        index[e.get()] = nodes.size();
+                        nodes.push_back(e);
+                        outsideModel = true;
+                    }
+                }
+            }
+            if (outsideModel) {
+                ctx.count("equivalents_kept_alive_outside_the_model");
+            }
+            UnionFind uf(nodes.size()), ufPlan(vars.size());
+            for (size_t i = 0; i < nodes.size(); ++i) {
+                for (size_t k = 0; nodes[i] != nullptr && k < nodes[i]->equivalentVariableCount(); ++k) {
+                    auto e = nodes[i]->equivalentVariable(k);
+                    if (e == nullptr) {
+                        ctx.violate("C18", "equivalent-variable-null", "", "equivalentVariable(i) returned null for i < equivalentVariableCount()");
+                        truthFailed = true;
+                        truthFailed = true;
+                    return;
                     }
                     uf.join(i, index[e.get()]);
                 }
@@ -479,28 +585,46 @@ void execute(const Plan &plan, Ctx &ctx)
                 ufPlan.join(size_t(e.first), size_t(e.second));
             }
             truth.assign(vars.size(), std::vector<bool>(vars.size(), false));
-            std::set<size_t> classes;
             for (size_t i = 0; i < vars.size(); ++i) {
+                if (vars[i] == nullptr) {
+                    continue;
+                }
                 classes.insert(uf.find(i));
                 for (size_t j = 0; j < vars.size(); ++j) {
+                    if (vars[j] == nullptr) {
+                        continue;
+                    }
                     truth[i][j] = uf.find(i) == uf.find(j);
-                    if (truth[i][j] != (ufPlan.find(i) == ufPlan.find(j))) {
+                    if (!outsideModel && truth[i][j] != (ufPlan.find(i) == ufPlan.find(j))) {
                         ctx.violate("C18", "graph-differs-from-edges", "", "equivalentVariable lists disagree with the equivalences added");
-                        return;
+                        truthFailed = true;
+                        truthFailed = true;
+                    return;
                     }
                 }
             }
+                for (size_t i = 0; i < vars.size(); ++i) {
+                    classOf[i] = uf.find(i);
+                }
+            };
+            computeTruth();
+            if (truthFailed) {
+                return;
+            }
+            std::set<size_t> classesBefore = classes;
             // one defining equation per equivalence class, in the component of its first member
             std::vector<std::string> math(comps.size());
             std::set<size_t> done;
             for (size_t i = 0; i < vars.size(); ++i) {
-                if (done.insert(uf.find(i)).second) {
+                if (vars[i] != nullptr && done.insert(classOf[i]).second) {
                     math[size_t(varComp[i])] += "<apply><eq/><ci>v" + str(i) + "</ci><cn cellml:units=\"dimensionless\">" + str(i + 1) + "</cn></apply>";
                 }
             }
             for (size_t c = 0; c < comps.size(); ++c) {
                 if (!math[c].empty()) {
                     comps[c]->setMath("<math xmlns=\"http://www.w3.org/1998/Math/MathML\" xmlns:cellml=\"http://www.cellml.org/cellml/2.0#\">" + math[c] + "</math>");
+                } else {
+                    comps[c]->removeMath();
                 }
             }
             if (parsed) {
@@ -529,7 +653,11 @@ void execute(const Plan &plan, Ctx &ctx)
                     }
                 }
             }
-            analyser = Analyser::create();
+            if (analyser == nullptr || s.arg(0) % 2 != 0) {
+                analyser = Analyser::create();
+            } else {
+                ctx.count("fault_same_analyser_reanalyses_edited_model");
+            }
             obs = Observed();
             analyser->analyseModel(model);
             am = analyser->model();
@@ -540,10 +668,15 @@ void execute(const Plan &plan, Ctx &ctx)
                 ctx.violate("C18", "no-analyser-model", "", "Analyser::model() is null after analyseModel");
                 return;
             }
+            computeTruth();
+            if (truthFailed) {
+                return;
+            }
+            bool classesStable = classes.size() == classesBefore.size();
             ctx.ev("ANALYSE type=" + AnalyserModel::typeAsString(am->type()) + " issues=" + str(analyser->issueCount()) + " vars=" + str(am->variableCount()) + (analyser->issueCount() > 0 ? " first=" + analyser->issue(0)->description() : ""));
             if (analyser->errorCount() == 0 && am->isValid()) {
                 ctx.count("valid_analyses");
-                if (am->variableCount() + am->stateCount() != classes.size()) {
+                if (classesStable && am->variableCount() + am->stateCount() != classes.size()) {
                     std::string tag = obs.hitsOnNeverQueried > 0 ? "cache-collision-during-analysis" : "";
                     ctx.violate("C18", "analysis-class-count", tag, "analysed model has " + str(am->variableCount()) + " variables for " + str(classes.size()) + " classes of connected variables");
                     return;
@@ -561,6 +694,9 @@ void execute(const Plan &plan, Ctx &ctx)
                 continue;
             }
             size_t i = size_t(s.arg(0)) % vars.size(), j = size_t(s.arg(1)) % vars.size();
+            if (vars[i] == nullptr || vars[j] == nullptr) {
+                continue;
+            }
             bool expected = truth[i][j];
             long before = obs.hitsOnNeverQueried;
             bool got;
